@@ -167,6 +167,8 @@ type run struct {
 	strayQ    map[string]bool // %q forms of the ids of the stray responses the peer has sent
 	paramOf   map[int]string  // caller -> params of its request as the peer received them (the call's marker)
 	timedOut  []int           // burst: callers the watchdog had to cancel
+	hangSig   string          // burst: a goroutine of the conn was found blocked after Close (signature, description)
+	hangWhat  string
 	// burst mode: callers and notifiers spin on gate and enter the conn together; the peer holds its answers
 	// until it has received `hold` requests and then answers in a shuffled order
 	gate      *atomic.Bool
@@ -802,7 +804,8 @@ func (r *run) traceLine(eager bool) ([]byte, int) {
 		}
 	}
 	timedOut := append([]int{}, r.timedOut...)
-	line, _ := json.Marshal(map[string]any{"id": r.id, "eager": eager, "regnum": regnum, "lazy": lazy, "ev": evs, "timedout": timedOut})
+	line, _ := json.Marshal(map[string]any{"id": r.id, "eager": eager, "regnum": regnum, "lazy": lazy, "ev": evs, "timedout": timedOut,
+		"hang": map[string]string{"sig": r.hangSig, "what": r.hangWhat}})
 	return line, len(evs)
 }
 
@@ -1046,9 +1049,10 @@ func runBurst(id int, rng *rand.Rand) (cr caseResult) {
 	case <-time.After(hangTimeout):
 		// the run loop did not see the closed stream: it is blocked somewhere (hang names where, or stops the
 		// harness if no goroutine of the conn is blocked); the recorded execution still goes to TLC
+		// (the hang is reported by the check after TLC has judged the trace, so that the root cause comes first)
 		sig, msg := r.hang("burst: the run loop did not stop after Close", nil)
-		cr = fail(sig, msg)
-		r.toConn.Close()
+		r.hangSig, r.hangWhat = sig, msg
+		cr.failed = true
 		cr.trace, cr.events = r.traceLine(true)
 		return cr
 	}
